@@ -189,7 +189,10 @@ type lexOut struct {
 	ParseOK bool     `json:"parse_ok"`
 	Trees   []string `json:"trees,omitempty"`
 	PErr    string   `json:"perr,omitempty"`
+	Dumps   []string `json:"dumps,omitempty"`
 }
+
+var lexWantDumps bool
 
 func lexOne(in []byte, doParse bool) lexOut {
 	var o lexOut
@@ -232,6 +235,11 @@ func lexOne(in []byte, doParse bool) lexOut {
 			} else {
 				o.ParseOK = true
 				o.Trees = astHashes(tree)
+				if lexWantDumps && tree != nil {
+					for _, st := range tree.Statements {
+						o.Dumps = append(o.Dumps, dump(st))
+					}
+				}
 			}
 		}
 	})
@@ -245,6 +253,7 @@ func init() {
 	}
 	subcmds["lex"] = func(args []string) int {
 		doParse := !(len(args) > 0 && args[0] == "noparse")
+		lexWantDumps = len(args) > 0 && args[0] == "dump"
 		sc := bufio.NewScanner(os.Stdin)
 		sc.Buffer(make([]byte, 1<<20), 1<<28)
 		w := bufio.NewWriter(os.Stdout)
